@@ -288,7 +288,13 @@ impl Sender {
                 // ASCII, or multi-byte UTF-8 with the same BYTE length (the limit is in bytes:
                 // 32768 x U+00E9 is 65,536 bytes but only 32,768 characters)
                 let multibyte = ctx.ch.chance("op.arg.multibyte", 1, 3);
-                let long = if multibyte && len >= 2 { format!("{}{}", "\u{e9}".repeat(len / 2), if len % 2 == 1 { "a" } else { "" }) } else { "n".repeat(len) };
+                let long = if multibyte && len >= 2 {
+                    let unit = 2 + ctx.ch.draw("op.arg.unit", 3) as usize;
+                    let shift = ctx.ch.draw("op.arg.shift", 4) as usize;
+                    crate::worlds::hostile::exact_bytes_string(len, unit, shift)
+                } else {
+                    "n".repeat(len)
+                };
                 debug_assert_eq!(long.len(), len);
                 if multibyte {
                     ctx.probe("a.multibyte_amf0_string");
